@@ -16,7 +16,8 @@ for d in /verif/selftest/${1}*/; do
   expect=$(python3 -c "import json;print(json.load(open('$d/meta.json'))['expect'])")
   git -C $W checkout -q --detach $(git -C /repo rev-parse HEAD)   # follow /repo's HEAD (contracts may have been committed meanwhile)
   git -C $W apply $d/patch.diff || { echo "$name: PATCH DOES NOT APPLY" | tee -a $log; fail=$((fail+1)); continue; }
-  out=$(VERIF_REPO=$W VERIF_EVIDENCE_DIR=/tmp/verif-selftest-evidence-$$ VERIF_REPLAY_DIR=/tmp/verif-selftest-replays-$$ /verif/govc/bin/govc check -p $prop -tier quick 2>&1); rc=$?
+  noretry=""; [ "$expect" = "violation" ] && noretry=1
+  out=$(VERIF_NO_RETRY=$noretry VERIF_REPO=$W VERIF_EVIDENCE_DIR=/tmp/verif-selftest-evidence-$$ VERIF_REPLAY_DIR=/tmp/verif-selftest-replays-$$ /verif/govc/bin/govc check -p $prop -tier quick 2>&1); rc=$?
   git -C $W checkout -- . ; git -C $W clean -fdq -- . >/dev/null 2>&1
   if [ "$expect" = "violation" ]; then
     if [ $rc -eq 1 ] && echo "$out" | grep -q "^VIOLATION property=$prop"; then
